@@ -33,6 +33,8 @@ def entry_points(repo):
             continue
         if f.cls is not None and f.cls.name.startswith("_") and not f.cls.name.startswith("__"):
             continue   # a private helper class is not a modelling entry point; what its methods do is judged where they are called
+        if f.module.name.split(".")[-1].startswith("_") and not f.module.name.split(".")[-1].startswith("__"):
+            continue   # likewise a function of a private module (`_paths.py`): reached only through the package's own functions
         out.append(f)
     return out
 
